@@ -164,6 +164,10 @@ def gen_include_scenario(rng, tier='quick'):
     n = rng.randint(2, 5)
     files = [{'name': 'main.asm' if i == 0 else f'f{i}.asm', 'dir': 'src' if i == 0 else rng.choice(['src', 'lib']), 'stmts': []}
              for i in range(n)]
+    if n >= 3 and rng.random() < 0.3:
+        # two different files in one directory whose names differ only in letter case
+        files[1]['name'], files[2]['name'] = 'Tables.asm', 'tables.asm'
+        files[2]['dir'] = files[1]['dir']
     byte = [0x20]
 
     def data():
